@@ -254,6 +254,26 @@ let () =
             print_string (if known_C16_null_plain_string d then "\"known\":true," else "\"known\":false,");
             print_string (if known_C16_null_forbidden_field d then "\"known2\":true}" else "\"known2\":false}");
             print_char '\n'
+        | L [A "grammar"; A id; sd; rt; partial; L scripts] ->
+            (* the extracted grammar reader of Spec/C19Grammar.v on script texts produced by the REAL tool:
+               names_valid = the document-side hypothesis of C19_generated_lines, accepted = wf_lines of each text *)
+            let r = d_runtime rt in
+            let nv = (match parse (d_document sd) with
+                      | Ok d -> if d_bool partial then doc_names_valid_partial d r else doc_names_valid d r
+                      | Err _ -> false) in
+            let split_lines (s : char list) : char list list =
+              let rec go acc cur = function
+                | [] -> Stdlib.List.rev (Stdlib.List.rev cur :: acc)
+                | '\n' :: t -> go (Stdlib.List.rev cur :: acc) [] t
+                | c :: t -> go acc (c :: cur) t in
+              let ls = go [] [] s in
+              (* the text ends with a line break: no empty last line *)
+              (match Stdlib.List.rev ls with [] :: r -> Stdlib.List.rev r | _ -> ls) in
+            let oks = Stdlib.List.map (fun t -> wf_lines (split_lines (d_str t))) scripts in
+            print_string id; print_char '\t';
+            print_string (if nv then "{\"names_valid\":true,\"accepted\":[" else "{\"names_valid\":false,\"accepted\":[");
+            print_string (Stdlib.String.concat "," (Stdlib.List.map (fun b -> if b then "true" else "false") oks));
+            print_string "]}"; print_char '\n'
 SPEC*)
         | _ -> raise (Bad "unknown case form")
       end
